@@ -57,7 +57,7 @@ def make_small(rng):
                            'Float64_na', 'string_na', 'Int64_unique_one_na', 'many_nan_float',
                            'categorical_unused', 'datetime_nat', 'bigint_unique', 'sorted_dup_gap',
                            'sorted_unique', 'sorted_desc_dup', 'timedelta_nat', 'sorted_float_dup_gap',
-                           'sorted_str_dup', 'obj_distinct_nans'])
+                           'sorted_str_dup', 'obj_distinct_nans', 'tz_dst', 'tz_dst'])
         name = 'c%d_%s' % (c, kind)
         if kind in ('sorted_dup_gap', 'sorted_desc_dup', 'sorted_float_dup_gap', 'sorted_unique'):
             # consecutive ids in sorted order; one id repeated and the next one skipped, so that first,
@@ -72,6 +72,15 @@ def make_small(rng):
                 vals = vals[::-1]
             cols[name] = pd.Series(vals, dtype='float64' if kind == 'sorted_float_dup_gap' else
                                    rng.choice(['int64', 'int32']))
+        elif kind == 'tz_dst':
+            # time-zone aware instants on both sides of the end of daylight saving time: different
+            # instants that read the same on the local clock
+            tz, start = rng.choice([('Europe/Berlin', '2021-10-31 00:30'), ('America/Chicago', '2022-11-06 00:15')])
+            inst = list(pd.date_range(start, periods=max(n, 8), freq=rng.choice(['30min', '15min']), tz=tz))
+            vals = [rng.choice(inst) for _ in range(n)] if rng.random() < 0.5 else inst[:n]
+            if rng.random() < 0.4 and n > 2:
+                vals[rng.randrange(n)] = pd.NaT
+            cols[name] = pd.Series(vals)
         elif kind == 'obj_distinct_nans':
             # every missing cell is a NaN object of its own (float('nan') per cell, a float column
             # converted with astype(object)): still ONE missing value for the distinct count
@@ -140,6 +149,13 @@ def make_small(rng):
             vals[rng.randrange(n)] = None
             cols[name] = pd.Series(vals, dtype=object)
     df = pd.DataFrame(cols)
+    if rng.random() < 0.05:
+        # a pivoted wide table: the column labels are days (datetime64[ns]) or durations
+        if rng.random() < 0.5:
+            df.columns = pd.DatetimeIndex(np.array([np.datetime64('2020-01-01', 'ns') + np.timedelta64(i, 'D')
+                                                    for i in range(len(df.columns))]))
+        else:
+            df.columns = pd.to_timedelta(np.arange(len(df.columns)), unit='D').astype('timedelta64[ns]')
     r = rng.random()
     if r < 0.3:
         df.index = rng.sample(range(1000, 1000 + 10 * n), n)
